@@ -22,6 +22,7 @@ RULE = ('one evaluation = one seeded simulated run of 2-4 contenders (threads sh
         'acquire; distinct = SHA-256 of the seam event log')
 RULE += ' ' + 'In one run in seven every contender first takes an uncontended primitive of the same kind and key on a cache of its own and keeps it throughout.'
 RULE += ' ' + 'In a fifth of the runs Lock and BoundedSemaphore releases are made under another thread identity than the acquire.'
+RULE += ' ' + 'One run in sixteen builds the primitive with expire=10 (holders at t=0-1 and t=9-12, a third contender at 10.5).'
 ASSUMPTIONS = ['polling acquire loops (1 ms virtual sleeps) are run with critical sections of at most a few virtual milliseconds',
                'lock keys carry no expiry in this check']
 PROBES = ('contended_acquire', 'nested_rlock', 'bad_release_refused', 'lock_wait', 'barrier_calls', 'with_statement', 'cs_raised', 'barrier_mixed_with_primitive', 'fresh_handles', 'json_disk', 'long_section', 'outer_same_key', 'released_by_another_thread', 'leased')
